@@ -22,7 +22,7 @@ func i64(i int) int64 {
 }
 
 // message M { int64 a = 1; uint32 b = 2; string c = 3; bool d = 4; sint64 e = 7; fixed64 f = 9; bytes g = 10;
-//             Inner in = 11; repeated int32 r = 12; Inner p = 13 (held through a pointer); bytes k = 14 (a Go [7]byte); } message Inner { int32 x = 1; string y = 2; }
+//             Inner in = 11; repeated int32 r = 12; Inner p = 13 (held through a pointer); bytes k = 14 (a Go [7]byte); repeated sint64 z = 15; sfixed32 sf = 16; sfixed64 sg = 17; map<string,int32> mp = 18; } message Inner { int32 x = 1; string y = 2; }
 type Inner struct {
 	X int32
 	Y string
@@ -40,6 +40,10 @@ type M struct {
 	R  []int32 `protobuf:"varint,12,rep,name=r"`
 	P  *Inner  `protobuf:"bytes,13,opt,name=p"`
 	K  [7]byte `protobuf:"bytes,14,opt,name=k"`
+	Z  []int64 `protobuf:"zigzag64,15,rep,name=z"`
+	SF int32   `protobuf:"fixed32,16,opt,name=sf"`
+	SG int64   `protobuf:"fixed64,17,opt,name=sg"`
+	MP map[string]int32 `protobuf:"bytes,18,rep,name=mp"`
 }
 
 func mkM() M {
@@ -52,9 +56,19 @@ func mkM() M {
 		if vfBool() {
 			m.P = &Inner{X: int32(int8(vfByte())), Y: vfString(vfLen)}
 		}
-	} else { // the byte-array field: one or two non-zero bytes, the last one among them (units with vfK=1 leave P nil)
+	} else if vfK == 1 { // the byte-array field: one or two non-zero bytes, the last one among them (units with vfK=1 leave P nil)
 		m.K[vfIntIn(0, 6)] = vfByte()
 		m.K[6] = vfByte()
+	} else { // vfK == 2: repeated sint64, sfixed32, sfixed64 and a map (nil, empty, one entry)
+		m.Z = []int64{int64(vfU64())}
+		m.SF = int32(vfU32())
+		m.SG = int64(vfU64())
+		switch vfIntIn(0, 2) {
+		case 1:
+			m.MP = map[string]int32{}
+		case 2:
+			m.MP = map[string]int32{vfString(1): int32(int8(vfByte()))}
+		}
 	}
 	return m
 }
@@ -161,6 +175,17 @@ func eqM(a, b M) {
 	vfAssert(a.In.X == b.In.X, "M.in.x")
 	vfAssert(a.In.Y == b.In.Y, "M.in.y")
 	vfAssert(a.K == b.K, "M.k")
+	vfAssert(a.SF == b.SF, "M.sf")
+	vfAssert(a.SG == b.SG, "M.sg")
+	vfAssert(len(a.Z) == len(b.Z), "M.z-len")
+	for i := 0; i < len(a.Z) && i < len(b.Z); i++ {
+		vfAssert(a.Z[i] == b.Z[i], "M.z")
+	}
+	vfAssert(len(a.MP) == len(b.MP), "M.mp-len")
+	for k, x := range a.MP {
+		y, ok := b.MP[k]
+		vfAssert(ok && x == y, "M.mp-entry")
+	}
 	vfAssert((a.P == nil) == (b.P == nil), "M.p-presence")
 	if a.P != nil && b.P != nil {
 		vfAssert(a.P.X == b.P.X, "M.p.x")
@@ -241,6 +266,59 @@ func vfH_c12_encode() {
 			ok = n >= 0
 			back.R = append(back.R, int32(v))
 			b = b[max(n, 0):]
+		case num == 15 && typ == protowire.VarintType:
+			v, n := protowire.ConsumeVarint(b)
+			ok = n >= 0
+			back.Z = append(back.Z, protowire.DecodeZigZag(v))
+			b = b[max(n, 0):]
+		case num == 16 && typ == protowire.Fixed32Type:
+			v, n := protowire.ConsumeFixed32(b)
+			ok = n >= 0
+			back.SF = int32(v)
+			b = b[max(n, 0):]
+		case num == 17 && typ == protowire.Fixed64Type:
+			v, n := protowire.ConsumeFixed64(b)
+			ok = n >= 0
+			back.SG = int64(v)
+			b = b[max(n, 0):]
+		case num == 18 && typ == protowire.BytesType:
+			v, n := protowire.ConsumeBytes(b)
+			ok = n >= 0
+			if ok {
+				// a map entry is a message {1: key, 2: value}; absent parts take their default
+				var key string
+				var val int32
+				e := v
+				for len(e) > 0 && ok {
+					en, et, k := protowire.ConsumeTag(e)
+					if k < 0 {
+						ok = false
+						break
+					}
+					e = e[k:]
+					switch {
+					case en == 1 && et == protowire.BytesType:
+						kb, k := protowire.ConsumeBytes(e)
+						ok = k >= 0
+						key = string(kb)
+						e = e[max(k, 0):]
+					case en == 2 && et == protowire.VarintType:
+						x, k := protowire.ConsumeVarint(e)
+						ok = k >= 0
+						val = int32(x)
+						e = e[max(k, 0):]
+					default:
+						ok = false
+					}
+				}
+				if ok {
+					if back.MP == nil {
+						back.MP = map[string]int32{}
+					}
+					back.MP[key] = val
+				}
+			}
+			b = b[max(n, 0):]
 		case num == 14 && typ == protowire.BytesType:
 			v, n := protowire.ConsumeBytes(b)
 			ok = n >= 0 && len(v) == 7
@@ -264,6 +342,16 @@ func vfH_c12_encode() {
 	}
 	vfAssert(ok, "reference-decoder-accepts-the-bytes")
 	if ok {
+		if len(m.MP) == 0 && len(back.MP) == 1 {
+			if v, has := back.MP[""]; has && v == 0 {
+				// known finding: a nil or empty map is written as ONE entry with an empty payload (the package's own
+				// "empty map marker"), which every conformant decoder reads as the entry {"": 0}
+				vfKnown("F-C12-empty-map-marker")
+				vfAssert(false, "empty-map-is-written-as-no-entry")
+				vfKnownEnd()
+				back.MP = nil
+			}
+		}
 		eqM(m, back)
 	}
 	vfCover("done")
@@ -295,6 +383,30 @@ func vfH_c12_decode() {
 		}
 		b = protowire.AppendTag(b, 14, protowire.BytesType)
 		return lenPfx(b, m.K[:])
+	}
+	fX := func(b []byte) []byte { // the vfK=2 group
+		for _, z := range m.Z {
+			b = protowire.AppendTag(b, 15, protowire.VarintType)
+			b = pad(b, protowire.EncodeZigZag(z))
+		}
+		if m.SF != 0 {
+			b = protowire.AppendTag(b, 16, protowire.Fixed32Type)
+			b = protowire.AppendFixed32(b, uint32(m.SF))
+		}
+		if m.SG != 0 {
+			b = protowire.AppendTag(b, 17, protowire.Fixed64Type)
+			b = protowire.AppendFixed64(b, uint64(m.SG))
+		}
+		for k, x := range m.MP {
+			var e []byte
+			e = protowire.AppendTag(e, 1, protowire.BytesType)
+			e = protowire.AppendString(e, k)
+			e = protowire.AppendTag(e, 2, protowire.VarintType)
+			e = pad(e, uint64(int64(x)))
+			b = protowire.AppendTag(b, 18, protowire.BytesType)
+			b = lenPfx(b, e)
+		}
+		return b
 	}
 	fA := func(b []byte) []byte {
 		b = protowire.AppendTag(b, 1, protowire.VarintType)
@@ -388,7 +500,7 @@ func vfH_c12_decode() {
 	switch vfMode {
 	case 1:
 		// reverse order
-		b = fA(fB(fC(fD(fE(fF(fG(fIn(fR(fP(fK(nil)))))))))))
+		b = fA(fB(fC(fD(fE(fF(fG(fIn(fR(fP(fK(fX(nil))))))))))))
 	case 3:
 		// each scalar first with another value, then with the right one
 		b = protowire.AppendTag(b, 1, protowire.VarintType)
@@ -397,7 +509,7 @@ func vfH_c12_decode() {
 		b = protowire.AppendString(b, "zz")
 		b = protowire.AppendTag(b, 4, protowire.VarintType)
 		b = protowire.AppendVarint(b, 1)
-		b = fK(fP(fR(fIn(fG(fF(fE(fD(fC(fB(fA(b)))))))))))
+		b = fX(fK(fP(fR(fIn(fG(fF(fE(fD(fC(fB(fA(b))))))))))))
 	default:
 		b = fA(b)
 		b = unk(b)
@@ -412,6 +524,7 @@ func vfH_c12_decode() {
 		b = fR(b)
 		b = fP(b)
 		b = fK(b)
+		b = fX(b)
 		b = unk(b)
 	}
 	var got M
